@@ -106,6 +106,8 @@ func (fc *FnCtx) doCall(c *ssa.CallCommon, args []Val, at ssa.Value, rt types.Ty
 		}
 	} else if f, ok := c.Value.(*ssa.Function); ok {
 		con = fc.prog.Cons.ByFunc[f]
+	} else if nt, ok := c.Value.Type().(*types.Named); ok && nt.Obj().Pkg() != nil {
+		con = fc.prog.Cons.FuncType[nt.Obj().Pkg().Path()+"."+nt.Obj().Name()]
 	}
 	if con != nil {
 		top := fc.topCtx()
@@ -172,7 +174,7 @@ func effectFree(name string) bool {
 		"strings.", "math.", "unicode.", "encoding/hex.", "(context.Context).", "context.", "math/rand.", "sort.Search", "(github.com/google/uuid.UUID).String",
 		"(github.com/tokenized/pkg/bitcoin.Hash32).String", "(*github.com/tokenized/pkg/bitcoin.Hash32).String", "(*math/big.Int).Text", "(*math/big.Int).String",
 		"github.com/google/uuid.New", "(*github.com/tokenized/threads.", "github.com/tokenized/threads.", "net.", "(net.", "(*net.", "os.", "(*sync.WaitGroup).",
-		"runtime.", "(*sync.Once).", "(*bytes.Buffer).", "(*bytes.Reader).", "bytes.", "crypto/", "(crypto/", "hash.", "unicode/utf8.", "(*github.com/tokenized/threads.WaitingBuffer).", "(net.IP).", "(*math/rand."} {
+		"runtime.", "(*sync.Once).", "(*bytes.Buffer).", "(*bytes.Reader).", "bytes.", "crypto/", "(crypto/", "hash.", "unicode/utf8.", "(*github.com/tokenized/threads.WaitingBuffer).", "(net.IP).", "(*math/rand.", "github.com/tokenized/pkg/wire.New"} {
 		if strings.HasPrefix(name, p) {
 			return true
 		}
@@ -201,6 +203,24 @@ func (fc *FnCtx) havocAll() {
 	}
 	fc.noClosure = false
 	st.epoch = fc.vc.nfresh
+}
+
+// havocHeap: like havocAll but ghost streams/counters and channel state are kept.
+func (fc *FnCtx) havocHeap() {
+	st := fc.cur
+	a := fc.alloc()
+	na := fc.vc.fresh("H.alloc", "Int")
+	st.heap["alloc"] = na
+	fc.vc.assume(st.reach, "(>= "+na+" "+a+")")
+	fc.noClosure = true
+	for _, k := range sortedKeys(st.sorts) {
+		if k == "alloc" || strings.HasPrefix(k, "GH.") || strings.HasPrefix(k, "CN.") || strings.HasPrefix(k, "CL.") {
+			continue
+		}
+		fc.noteWrite(k)
+		fc.havocComp(k, st.sorts[k], na)
+	}
+	fc.noClosure = false
 }
 
 func (fc *FnCtx) inlinable(f *ssa.Function) bool {
@@ -381,6 +401,11 @@ func (fc *FnCtx) applyContract(con *Contract, c *ssa.CallCommon, args []Val, rt 
 	// effects
 	if con.ModAll {
 		fc.havocAll()
+	} else if con.ModHeap {
+		fc.havocHeap()
+		if err := fc.applyModifies(con, se, pre); err != nil {
+			return nil, err
+		}
 	} else {
 		if err := fc.applyModifies(con, se, pre); err != nil {
 			return nil, err
@@ -829,9 +854,11 @@ func (fc *FnCtx) callMods(c *ssa.CallCommon, li *loopInfo, depth int) {
 		}
 	} else if f, ok := c.Value.(*ssa.Function); ok {
 		con = fc.prog.Cons.ByFunc[f]
+	} else if nt, ok := c.Value.Type().(*types.Named); ok && nt.Obj().Pkg() != nil {
+		con = fc.prog.Cons.FuncType[nt.Obj().Pkg().Path()+"."+nt.Obj().Name()]
 	}
 	if con != nil {
-		if con.ModAll {
+		if con.ModAll || con.ModHeap {
 			li.modAll = true
 			return
 		}
